@@ -73,7 +73,8 @@ def run_program(prog, seed, policy, base, family="corpus", replay=None):
     # the model driver evaluates the accounting equation of coq/ASModel/AccDefs.v on every state
     # (MODEL_ACC_CHECK=1); a violated equation on a trace the code agrees with is a C02 finding
     acc_lines = [l for l in model if l.startswith(". ACC-VIOLATION")]
-    model = [l for l in model if not l.startswith(". ACC-VIOLATION")]
+    prot_lines = [l for l in model if l.startswith(". PROT-VIOLATION")]
+    model = [l for l in model if not l.startswith(". ACC-VIOLATION") and not l.startswith(". PROT-VIOLATION")]
     open(base + ".model", "w").write(m.stdout.decode())
     if m.returncode != 0:
         res["status"] = "model-failed"
@@ -102,6 +103,8 @@ def run_program(prog, seed, policy, base, family="corpus", replay=None):
         findings, metrics = [("HARNESS", "oracle crashed: %r" % (ex,))], {}
     for l in acc_lines:
         findings = list(findings) + [("C02", "accounting equation count+slots+owed = containers+envelopes+handles+frames violated: " + l[2:], None)]
+    for l in prot_lines:
+        findings = list(findings) + [("C01", "protection invariant of coq/ASModel/ProtDefs.v (a slot holding a value is unconfirmed, or the value is stored, or a writer still walks towards the slot) violated: " + l[2:], None)]
     res["findings"] = findings
     res["metrics"] = metrics
     if d is None:
